@@ -6,7 +6,9 @@ package conc
 
 import (
 	"context"
+	"encoding/json"
 	"fmt"
+	"io"
 	"net"
 	"os"
 	"strings"
@@ -14,6 +16,7 @@ import (
 	"testing"
 	"time"
 
+	"github.com/creachadair/jrpc2"
 	"github.com/creachadair/jrpc2/channel"
 	"github.com/creachadair/jrpc2/handler"
 	"github.com/creachadair/jrpc2/server"
@@ -23,6 +26,7 @@ var probes = map[string]func() string{
 	"netacc-ctx-before-loop":     func() string { return probeNetAccepter("before") },
 	"netacc-ctx-between-accepts": func() string { return probeNetAccepter("between") },
 	"netacc-ctx-during-accept":   func() string { return probeNetAccepter("during") },
+	"wire-concurrent-pushes":     probeConcurrentPushes,
 }
 
 func TestProbes(t *testing.T) {
@@ -139,4 +143,105 @@ func probeNetAccepter(when string) string {
 		return "FAIL\tthe listener is still open after Loop returned"
 	}
 	return "ok"
+}
+
+// stallWriter: the first Write blocks until released (the peer is slow to take the bytes), later ones pass.
+type stallWriter struct {
+	mu      sync.Mutex
+	buf     []byte
+	first   sync.Once
+	entered chan struct{}
+	release chan struct{}
+}
+
+func (w *stallWriter) Write(p []byte) (int, error) {
+	w.first.Do(func() {
+		close(w.entered)
+		<-w.release
+	})
+	w.mu.Lock()
+	w.buf = append(w.buf, p...)
+	w.mu.Unlock()
+	return len(p), nil
+}
+
+func (w *stallWriter) Close() error { return nil }
+
+// probeConcurrentPushes: what reaches the peer is a sequence of whole messages, each valid one-line JSON-RPC, also
+// when several goroutines push at the same time over a framing that assembles its frames in a per-channel buffer
+// (header framings) and the peer is slow: a Notify issued while another is still being written waits for it.
+func probeConcurrentPushes() string {
+	for _, fr := range []struct {
+		name string
+		f    channel.Framing
+	}{{"lsp", channel.LSP}, {"header", channel.Header("application/json")}, {"line", channel.Line}} {
+		pr, pw := io.Pipe() // the client's requests: none; closed at the end
+		w := &stallWriter{entered: make(chan struct{}), release: make(chan struct{})}
+		srv := jrpc2.NewServer(handler.Map{}, &jrpc2.ServerOptions{AllowPush: true}).Start(fr.f(pr, w))
+		errs := make(chan error, 3)
+		go func() { errs <- srv.Notify(context.Background(), "first", []string{strings.Repeat("a", 300)}) }()
+		select {
+		case <-w.entered:
+		case <-time.After(10 * time.Second):
+			return "FAIL\t" + fr.name + ": the first push never reached the writer"
+		}
+		go func() { errs <- srv.Notify(context.Background(), "second", []int{2}) }()
+		go func() { errs <- srv.Notify(context.Background(), "third", []string{strings.Repeat("c", 40)}) }()
+		time.Sleep(100 * time.Millisecond) // let the other pushes get as far as they can
+		close(w.release)
+		for i := 0; i < 3; i++ {
+			select {
+			case err := <-errs:
+				if err != nil {
+					return fmt.Sprintf("FAIL\t%s: Notify failed: %v", fr.name, err)
+				}
+			case <-time.After(10 * time.Second):
+				return "FAIL\t" + fr.name + ": a push did not return"
+			}
+		}
+		pw.Close()
+		srv.Wait()
+		w.mu.Lock()
+		stream := append([]byte(nil), w.buf...)
+		w.mu.Unlock()
+		rd := fr.f(io.NopCloser(strings.NewReader(string(stream))), nopWriteCloser{})
+		seen := map[string]bool{}
+		for {
+			rec, err := rd.Recv()
+			if err == io.EOF {
+				break
+			}
+			if err != nil {
+				return fmt.Sprintf("FAIL\t%s: the peer cannot read the stream of three concurrent pushes: %v (stream %q)", fr.name, err, clip(stream))
+			}
+			var m struct {
+				V string          `json:"jsonrpc"`
+				M string          `json:"method"`
+				P json.RawMessage `json:"params"`
+			}
+			if strings.ContainsAny(string(rec), "\n\r") || json.Unmarshal(rec, &m) != nil || m.V != "2.0" {
+				return fmt.Sprintf("FAIL\t%s: the peer received a record that is not a one-line JSON-RPC message: %q", fr.name, clip(rec))
+			}
+			if seen[m.M] {
+				return fmt.Sprintf("FAIL\t%s: the push %q reached the peer twice (stream %q)", fr.name, m.M, clip(stream))
+			}
+			seen[m.M] = true
+		}
+		if !seen["first"] || !seen["second"] || !seen["third"] || len(seen) != 3 {
+			return fmt.Sprintf("FAIL\t%s: the peer received %v, want first, second, third (stream %q)", fr.name, seen, clip(stream))
+		}
+	}
+	return "ok"
+}
+
+type nopWriteCloser struct{}
+
+func (nopWriteCloser) Write(p []byte) (int, error) { return len(p), nil }
+func (nopWriteCloser) Close() error                { return nil }
+
+func clip(b []byte) string {
+	if len(b) > 400 {
+		return string(b[:400]) + "..."
+	}
+	return string(b)
 }
